@@ -177,7 +177,7 @@ TIndex ==
      /\ Report(l, "W:floor", b.witness)
      /\ Report(l, "P:C12:build", b.build)
      /\ Report(l, "P:C12:exact", b.exact)
-     /\ (LayerM /\ e.err = "" /\ e.pan = "") => Report(l, "M:index", IndexDrift(e))
+     /\ (LayerM /\ e.err = "" /\ e.pan = "" /\ e.big = 0) => Report(l, "M:index", IndexDrift(e))
 
 \* ---- historical layouts (C06) ------------------------------------------------
 \* what a stream of the layout encodes, as a content record: three-section
